@@ -232,6 +232,8 @@ def run_property(mod, tier, seed, only=None):
     errs = []
     if hasattr(mod, "finalize"):
         errs = mod.finalize(results, cov) or []
+        if only:
+            errs = []  # vacuity guards only make sense on the full case list
     ev = {
         "property_id": pid,
         "tier": tier,
